@@ -7,7 +7,7 @@ from . import pat as P
 from .facts import AnchorMissing, PRODUCTION_CRATES
 
 
-def private_helper(body, keep):
+def private_helper(body, keep, prog=None):
     """predicate for inline.expand: a non-`pub`, inherent (not a trait impl) function of the same crate — and, for methods, of the same
     type — that the rule module does not name as an anchor (`keep`): such a helper is part of the function it was extracted from"""
     def f(callee, t):
@@ -18,7 +18,10 @@ def private_helper(body, keep):
         if callee.name in keep:
             return False
         if body.d.get("impl_self") and callee.d.get("impl_self") and callee.d.get("impl_self") != body.d.get("impl_self"):
-            return False
+            # a method of another type: only when that type is a private helper type of the crate (e.g. a small struct introduced to
+            # table-drive two similar checks), recognised by not being `pub`
+            adt = (prog.adts.get(callee.d.get("impl_adt") or "") if prog is not None else None)
+            return adt is not None and (adt.get("vis") or "pub") != "pub" and adt.get("crate") == body.crate
         return True
     return f
 
@@ -71,7 +74,7 @@ class MethodView:
             keep = module_anchors(sys._getframe(1).f_globals.get("__file__", ""))
         if keep is not None:
             from . import inline as _inl
-            self.body, self.expanded = _inl.expand(ck.prog, self.body, private_helper(self.body, set(keep)))
+            self.body, self.expanded = _inl.expand(ck.prog, self.body, private_helper(self.body, set(keep), ck.prog))
             for p in self.expanded:
                 for b in ck.prog.by_path.get(p.split(" ")[0], []):
                     ck.saw(b)
@@ -228,7 +231,8 @@ class MethodView:
                 inner, fw = P.norm(inner[4][0]), "some"
             elif nm.endswith("::is_none") and fw is False and inner[4]:
                 inner, fw = P.norm(inner[4][0]), "some"
-            elif isinstance(c, tuple) and c and c[0] == "discr" and g["kind"] == "match" and set(g.get("vals") or []) == {"1"}:
+            elif isinstance(c, tuple) and c and c[0] == "discr" and g["kind"] == "match" and "1" in (g.get("vals") or []) and set(g.get("vals") or []) <= {"1", "else"}:
+                # every way through the `Some(..)` arm fails (the `else` arm of a match on an Option is unreachable)
                 inner, fw = P.norm(c[1]), "some"
             nm = P.call_name(inner) or ""
             if fw == "some" and nm.rsplit("::", 1)[-1] in ("find", "position") and len(inner[4]) == 2 and isinstance(inner[4][1], tuple) and inner[4][1][0] == "closure":
